@@ -86,7 +86,7 @@ func (q *SyncQueue) Close() {
 	q.lock.Lock()
 	if !q.closed {
 		q.closed = true
-		q.popable.Signal()
+		q.popable.Broadcast()
 	}
 	q.lock.Unlock()
 }
